@@ -181,18 +181,22 @@ def rule_dataworld(ctx, R):
                 seen["arch-skip"] += 1
                 R.check(not adv and not pushes, "C16-R4", key + "|disabled-archetype-consumes-nothing", "a cfg-disabled archetype is skipped before id assignment and before any push",
                         "a disabled archetype still reaches %s" % [cname(e[2]) for _, e in adv + pushes], where_of(f), fn=f.key)
-        if adv:
+        threaded = all(len(x[1][3]) >= 3 for x in adv)
+        if adv and not threaded:
+            R.fail("C15-R3", key + "|threading-shape", "advance_attribute_id is no longer called with (item, id map, previous id): the previous id is not threaded through the loops, so `previous + 1` cannot be the rule applied", where_of(f, adv[0][1][5]), fn=f.key)
+        if adv and threaded:
             a0 = adv[0][1]
             ids, last = N(a0[3][1]), N(a0[3][2])
             okids = ids[0] == "loopvar" and ids[1] == outer_h and ids[3] is not None and is_call(ids[3], "HashMap::new")
             R.check(okids, "C15-R3", key + "|archetype-id-map-shared", "one id map for all archetypes, created before the loop", "archetype ids are checked against %s" % show(ids)[:100], where_of(f), fn=f.key)
             oklast = last[0] == "loopvar" and last[1] == outer_h and last[3] == ("agg", "adt", "std::option::Option", "None", (), 0)
             R.check(oklast, "C15-R3", key + "|archetype-last-carried", "previous archetype id is loop carried, starting at None", "previous id passed is %s" % show(last)[:100], where_of(f), fn=f.key)
-            okitem = is_item(N(a0[3][0])) or contains(N(a0[3][0]), is_item)
+        if adv:
+            a0 = adv[0][1]
             # the enabled check precedes the id call
             pre = [a for a in batoms(p, 0, adv[0][0] + 1) if a[0][0] == "bool" and is_call(a[0][1], "evaluate_cfgs") and a[1] is True]
             R.check(bool(pre), "C16-R4", key + "|archetype-id-after-cfg", "an archetype id is only assigned after evaluate_cfgs(..) == true", "advance_attribute_id for an archetype is not guarded by evaluate_cfgs", where_of(f, a0[5]), fn=f.key)
-        if inner is not None and len(adv) >= 2:
+        if inner is not None and len(adv) >= 2 and threaded:
             a1 = adv[1][1]
             ids, last = N(a1[3][1]), N(a1[3][2])
             # fresh per archetype: init created after the outer loop marker
@@ -202,6 +206,8 @@ def rule_dataworld(ctx, R):
                     "component ids are checked against %s (a map created outside the archetype iteration would make ids collide across archetypes)" % show(ids)[:100], where_of(f), fn=f.key)
             oklast = last[0] == "loopvar" and last[1] == inner[1] and last[3] == ("agg", "adt", "std::option::Option", "None", (), 0)
             R.check(oklast, "C15-R3", key + "|component-last-restarts", "previous component id restarts at None per archetype", "previous component id passed is %s" % show(last)[:100], where_of(f), fn=f.key)
+        if inner is not None and len(adv) >= 2:
+            a1 = adv[1][1]
             pre = [a for a in batoms(p, adv[0][0], adv[1][0] + 1) if a[0][0] == "bool" and is_call(a[0][1], "evaluate_cfgs") and a[1] is True]
             R.check(bool(pre), "C16-R4", key + "|component-id-after-cfg", "a component id is only assigned after evaluate_cfgs(..) == true", "advance_attribute_id for a component is not guarded by evaluate_cfgs", where_of(f, a1[5]), fn=f.key)
         if ends_inner:
@@ -216,12 +222,12 @@ def rule_dataworld(ctx, R):
                 v = N(inner_push[0][1][3][1])
                 d = dict(v[4]) if v[0] == "agg" else {}
                 idv = d.get("id")
-                okid = idv is not None and is_call(idv, "Option::unwrap") and contains(idv, lambda x: is_call(x, "advance_attribute_id") and x[2][1][0] == "loopvar" and x[2][1][1] == inner[1])
+                okid = idv is not None and is_call(idv, "Option::unwrap") and contains(idv, lambda x: is_call(x, "advance_attribute_id") and len(x[2]) >= 2 and x[2][1][0] == "loopvar" and x[2][1][1] == inner[1])
                 R.check(okid, "C15-R4", key + "|component-id-stored", "DataComponent.id = the id just assigned", "DataComponent.id is %s" % show(idv)[:120], where_of(f), fn=f.key)
                 # loop carried update
                 lastloc = None
                 a1 = inner_adv[0][1]
-                lastv = N(a1[3][2])
+                lastv = N(a1[3][2]) if len(a1[3]) >= 3 else ("none",)
                 if lastv[0] == "loopvar":
                     fin = (p.store or {}).get(("local", 0, lastv[2]))
                     okc = fin is not None and contains(N(fin), lambda x: is_call(x, "advance_attribute_id"))
@@ -233,10 +239,10 @@ def rule_dataworld(ctx, R):
                 seen["arch-push"] += 1
                 d = dict(v[4])
                 idv = d.get("id")
-                okid = idv is not None and is_call(idv, "Option::unwrap") and contains(idv, lambda x: is_call(x, "advance_attribute_id") and x[2][1][0] == "loopvar" and x[2][1][1] == outer_h)
+                okid = idv is not None and is_call(idv, "Option::unwrap") and contains(idv, lambda x: is_call(x, "advance_attribute_id") and len(x[2]) >= 2 and x[2][1][0] == "loopvar" and x[2][1][1] == outer_h)
                 R.check(okid, "C15-R4", key + "|archetype-id-stored", "DataArchetype.id = the id just assigned", "DataArchetype.id is %s" % show(idv)[:120], where_of(f), fn=f.key)
                 a0 = adv[0][1]
-                lastv = N(a0[3][2])
+                lastv = N(a0[3][2]) if len(a0[3]) >= 3 else ("none",)
                 if lastv[0] == "loopvar":
                     fin = (p.store or {}).get(("local", 0, lastv[2]))
                     okc = fin is not None and contains(N(fin), lambda x: is_call(x, "advance_attribute_id"))
